@@ -318,7 +318,7 @@ def value_terms_for(E, used_syms):
         if nm not in used_syms:
             continue
         s = smt_sym(nm)
-        if inp["kind"] in ("bytes", "int64s"):
+        if inp["kind"] in ("bytes", "int64s", "ints"):
             for i in range(inp["n"] or 0):
                 terms.append("(select %s #x%016x)" % (s, i))
                 keys.append((nm, i))
@@ -350,7 +350,7 @@ def model_to_inputs(E, mvals, keys, terms):
     res = {}
     for nm, v in out.items():
         inp = E.inputs[nm]
-        if inp["kind"] in ("bytes", "int64s"):
+        if inp["kind"] in ("bytes", "int64s", "ints"):
             res[nm] = [v.get(i, 0) for i in range(inp["n"])]
         else:
             res[nm] = v
@@ -364,7 +364,7 @@ def z3_model_inputs(E, m, used):
             continue
         t = inp["term"]
         k = inp["kind"]
-        if k in ("bytes", "int64s"):
+        if k in ("bytes", "int64s", "ints"):
             res[nm] = [m.eval(z3.Select(t, bv(i)), model_completion=True).as_long() for i in range(inp["n"])]
         elif k == "bool":
             res[nm] = z3.is_true(m.eval(t, model_completion=True))
@@ -379,12 +379,29 @@ def z3_model_inputs(E, m, used):
 
 
 def discharge(E, obs, tier="quick", jobs=None, log=None, inproc_ms=None, timeout=None, solvers=None):
+    stats = _discharge(E, obs, tier, jobs, log, inproc_ms, timeout, solvers, refine=False)
+    if E.refinements:
+        again = [o for o in obs if o.status == "sat" and o.kind != "reach"]
+        if again:
+            if log:
+                log("  refining %d counterexample(s) found under summaries with the exact definitions" % len(again))
+            for o in again:
+                o.note = "abstract-sat"
+            st2 = _discharge(E, again, tier, jobs, log, inproc_ms, timeout, solvers, refine=True)
+            stats["solver_s"] += st2["solver_s"]
+            stats["refined"] = len(again)
+            for k, v in st2["by_solver"].items():
+                stats["by_solver"][k] = stats["by_solver"].get(k, 0) + v
+    return stats
+
+
+def _discharge(E, obs, tier, jobs, log, inproc_ms, timeout, solvers, refine):
     """decide every obligation.  Stage 1: in-process z3 with a short timeout.
     Stage 2: 4-way portfolio on SMT-LIB2 files."""
     timeout = timeout or (60 if tier == "quick" else 600)
     inproc_ms = inproc_ms if inproc_ms is not None else (3000 if tier == "quick" else 5000)
     jobs = jobs or 5
-    assumptions = list(E.assumptions) + E.str_axioms()
+    str_ax = E.str_axioms()
     pending = []
     stats = {"inproc": 0, "portfolio": 0, "solver_s": 0.0, "by_solver": {}}
     for ob in obs:
@@ -394,7 +411,8 @@ def discharge(E, obs, tier="quick", jobs=None, log=None, inproc_ms=None, timeout
             ob.solver = "syntactic"
             continue
         terms = [ob.guard, neg]
-        rel = relevant(assumptions, terms)
+        # assumptions are not retroactive: only those in force when the obligation was created
+        rel = relevant(E.assumptions[:ob.assum_n] + str_ax + (E.refinements if refine else []), terms)
         asserts = rel + [t for t in terms if not is_true(t)]
         t0 = time.time()
         r = z3.unknown
